@@ -41,7 +41,11 @@ def _run(a, inst, shared):
     else:
         o1, o2 = s1.pipe(build(mkctx())), s2.pipe(build(mkctx()))
     r1, r2, r3 = sch.create_observer(), sch.create_observer(), sch.create_observer()
-    sch.schedule_absolute(200 + a.s1, lambda s, st: o1.subscribe(r1, scheduler=s))
+    h1 = [None]
+    sch.schedule_absolute(200 + a.s1, lambda s, st: h1.__setitem__(0, o1.subscribe(r1, scheduler=s)))
+    if a.d1 < 3:
+        # the first application's first subscriber leaves early: must not disturb the second application
+        sch.schedule_absolute(201 + a.s1 + a.d1, lambda s, st: h1[0].dispose())
     sch.schedule_absolute(200 + a.s2, lambda s, st: o2.subscribe(r2, scheduler=s))
     # a second subscriber of the first application, later: shared multicast state shows up here
     sch.schedule_absolute(200 + a.s1 + a.s3, lambda s, st: o1.subscribe(r3, scheduler=s))
@@ -59,7 +63,7 @@ def _inst(tier):
     return [{"op": i["op"]} for i in out if i["op"] not in skip]
 
 
-@harness(instances=_inst, timeout=(90, 900), term=I(1, 2), p=I(0, 2), m=I(1, 2), s1=I(0, 2), s2=I(0, 2), s3=I(0, 3))
+@harness(instances=_inst, timeout=(180, 900), term=I(1, 2), p=I(0, 2), m=I(1, 2), s1=I(0, 2), s2=I(0, 2), s3=I(0, 3), d1=I(0, 3))
 def h_reuse(a, inst):
     la, sa = _run(a, inst, True)
     lb, sb = _run(a, inst, False)
@@ -68,6 +72,62 @@ def h_reuse(a, inst):
         if not same_events(x, y):
             return False
     return sa == sb
+
+
+def _run_two_schedulers(a, inst, shared):
+    """application 1 lives on scheduler A, application 2 on a different scheduler B (each subscribed with its own scheduler and
+    run one after the other): an operator function must not remember the scheduler of an earlier application"""
+    schs = [make_scheduler(), make_scheduler()]
+    build = E[inst["op"]]["build"]
+    srcs = [_sources(sc, a, E[inst["op"]].get("elem")) for sc in schs]
+
+    def mkctx(k):
+        return Ctx(None, p=a.p, m=a.m, others=[srcs[k][2]], inners=[srcs[k][3], srcs[k][4]])
+
+    op = build(mkctx(0)) if shared else None
+    logs = []
+    for k in (0, 1):
+        o = srcs[k][0 if k == 0 else 1].pipe(op if shared else build(mkctx(k)))
+        r = schs[k].create_observer()
+        schs[k].schedule_absolute(200 + (a.s1 if k == 0 else a.s2), (lambda o, r: lambda s, st: o.subscribe(r, scheduler=s))(o, r))
+        schs[k].advance_to(240)
+        logs.append(rec_tuples(r.messages))
+    return logs
+
+
+class _NoSch(Ctx):
+    """a context without an explicit scheduler: entries that pass one to their operator are out of scope for this harness"""
+
+    def __getattribute__(self, name):
+        if name == "sch":
+            raise LookupError("explicit scheduler")
+        return object.__getattribute__(self, name)
+
+
+def _tinst(tier):
+    out = []
+    for i in _inst(tier):
+        tags = E[i["op"]]["tags"]
+        if "time" not in tags or "other" in tags or "inner" in tags:
+            continue
+        try:
+            c = _NoSch.__new__(_NoSch)
+            Ctx.__init__(c, None)
+            E[i["op"]]["build"](c)
+        except LookupError:
+            continue  # the operator is given an explicit scheduler: using it for every application is correct
+        except Exception:  # noqa: BLE001
+            pass
+        out.append(i)
+    return out
+
+
+@harness(instances=_tinst, timeout=(90, 900), term=I(1, 2), p=I(0, 2), m=I(1, 2), s1=I(0, 2), s2=I(0, 2))
+def h_reuse_two_schedulers(a, inst):
+    la = _run_two_schedulers(a, inst, True)
+    lb = _run_two_schedulers(a, inst, False)
+    cover("ran")
+    return all(same_events(x, y) for x, y in zip(la, lb))
 
 
 ENCODED = ["reactivex/operators/connectable/_refcount.py", "reactivex/operators/_replay.py", "reactivex/operators/_publishvalue.py",
